@@ -55,6 +55,7 @@ type c09cScenario struct {
 	Cap    int                `json:"cap"`
 	Blocks []c09cBlockSpec    `json:"blocks"`
 	Cl     map[string][]int   `json:"cl"` // block id -> producer set (key indices) in force after Update(block)
+	Genesis int               `json:"genesis"` // BP count at boot (Init argument of dpos.New); 0 = size of the producer set
 	Ops    []json.RawMessage  `json:"ops"` // ["D", id] deliver, ["W"] wait for the next slot
 }
 
@@ -209,7 +210,13 @@ func c09cRun(t *testing.T, s *c09cScenario, privs []crypto.PrivKey, pubBytes [][
 	if err != nil {
 		t.Fatal(err)
 	}
-	Init(cl.Size())
+	// dpos.New: Init(bpc.Size()) once at boot.  A scenario may say that the node booted with another
+	// BP count than the set now in force (an election changed the size since).
+	if s.Genesis > 0 {
+		Init(uint16(s.Genesis))
+	} else {
+		Init(cl.Size())
+	}
 	slot.Init(s.Iv)
 	d := &DPoS{Status: NewStatus(cl, cdb, cs.SDB(), 0), ChainDB: cdb, bpc: cl}
 	cons := &c09cCons{DPoS: d, idOf: map[string]int{}}
